@@ -9,6 +9,7 @@ Local Open Scope N_scope.
 Inductive ievent :=
 | IPull (img n : N)                 (* the scripted pull function was entered for img; n = global call number *)
 | IResp (c img n : N) (res : bool)  (* caller c's Pull(img) returned the result of pull call n (true = package) *)
+| IRej (c : N)                      (* caller c's Pull returned (nil, err) at once: the registry-host override failed *)
 | IGone (c img : N).                (* caller c's Pull(img) returned its context's error without a response
                                        (never on the current code; allowed by the monitor after Cancel c) *)
 
@@ -55,6 +56,7 @@ Definition erase (e : event) : ievent :=
   match e with
   | PullStarted img n => IPull img n
   | Response c img n res _ => IResp c img n res
+  | Rejected c => IRej c
   end.
 
 Definition ievent_eqb (a b : ievent) : bool :=
@@ -62,6 +64,7 @@ Definition ievent_eqb (a b : ievent) : bool :=
   | IPull i n, IPull i' n' => (i =? i') && (n =? n')
   | IResp c i n r, IResp c' i' n' r' => (c =? c') && (i =? i') && (n =? n') && Bool.eqb r r'
   | IGone c i, IGone c' i' => (c =? c') && (i =? i')
+  | IRej c, IRej c' => c =? c'
   | _, _ => false
   end.
 
@@ -71,8 +74,8 @@ Proof. destruct a; cbn; rewrite ?N.eqb_refl, ?eqb_reflx; reflexivity. Qed.
 Lemma ievents_eqb_refl l : list_eqb ievent_eqb l l = true.
 Proof. induction l as [|a l IH]; cbn; [reflexivity|]. now rewrite ievent_eqb_refl, IH. Qed.
 
-Definition step_img (x : step) : N := match x with Req _ i => i | Done i _ => i | Cancel _ => 0 end.
-Definition step_imgs (x : step) : list N := match x with Req _ i => [i] | Done i _ => [i] | Cancel _ => [] end.
+Definition step_img (x : step) : N := match x with Req _ i => i | Done i _ => i | _ => 0 end.
+Definition step_imgs (x : step) : list N := match x with Req _ i => [i] | Done i _ => [i] | _ => [] end.
 
 Definition recv_count (s : state) (img : N) : N :=
   match inflight s img with Some e => N.of_nat (length (e_recv e)) | None => 0 end.
@@ -100,7 +103,7 @@ Definition oimages (os : list ostep) : list N := nodup_N (flat_map ostep_imgs os
 
 (** Receivers registered for the step's image after the step (0 for a cancel step, which has no image). *)
 Definition ostep_count (s : state) (o : ostep) : N :=
-  match o with Plain (Cancel _) => 0 | _ => recv_count s (ostep_img o) end.
+  match o with Plain (Cancel _) | Plain (Fail _) => 0 | _ => recv_count s (ostep_img o) end.
 
 Definition is_ipull (e : ievent) : bool := match e with IPull _ _ => true | _ => false end.
 Definition pulls_of (l : list ievent) : list ievent := filter is_ipull l.
@@ -190,6 +193,13 @@ Definition mon_step (m : mstate) (x : step) (evs : list ievent) : option mstate 
           else None
       | None => if is_nil evs then Some m else None
       end
+  | Fail c =>
+      (* the override step of this Pull fails: the caller gets the error, exactly once and at once;
+         nothing else happens - in particular no pull starts *)
+      match evs with
+      | [IRej c'] => if c' =? c then Some m else None
+      | _ => None
+      end
   | Cancel c =>
       (* the cancelled caller may keep waiting (it is then answered like everybody else), or return
          early with its context's error: it is then exempt from "answered exactly once", everybody
@@ -268,7 +278,8 @@ Ltac sim_case Hs img :=
 Lemma sim_step s m x : sim s m ->
   exists m', mon_step m x (map erase (step_events s x)) = Some m' /\ sim (do_step s x) m'.
 Proof.
-  intros Hs. destruct x as [c img|img res|c].
+  intros Hs. destruct x as [c img|img res|c|c].
+  3: { exists m. split; [cbn; now rewrite N.eqb_refl|]. intros i. unfold receivers. cbn. apply Hs. }
   3: { exists m. split; [reflexivity|]. intros i. unfold receivers. cbn. apply Hs. }
   - destruct (Hs img) as (Hr & Hw). unfold receivers in *. cbn [mon_step step_events do_step]. rewrite Hr.
     destruct (inflight s img) as [e|] eqn:E; cbn [option_map map erase is_nil].
@@ -305,7 +316,7 @@ Proof. cbn. destruct (inflight s i); now split. Qed.
 
 Lemma count_ok_model s l : count_ok (forget l) (ostep_count (lnext s l) (forget l)) = true.
 Proof.
-  destruct l as [[c i|i r|c]|i r c b]; try reflexivity.
+  destruct l as [[c i|i r|c|c]|i r c b]; try reflexivity.
   unfold lnext, ostep_count, recv_count. cbn. now rewrite set_same.
 Qed.
 
